@@ -52,6 +52,10 @@ type behCase struct {
 	ID     string    `json:"id"`
 	Steps  []behStep `json:"steps"`
 	Owners []string  `json:"owners"` // owner kinds to replay on (default: all)
+	// LastOnly: report only the last step. Used for the behaviours TLC emits:
+	// every prefix of such a behaviour is itself an emitted behaviour (the edge
+	// that discovered the intermediate state), so its steps are judged there.
+	LastOnly bool `json:"last_only"`
 }
 
 type obsStep struct {
@@ -222,6 +226,11 @@ func replayOn(bc behCase, ownerKind string) any {
 	setExtList(owner, init)
 	var heldExt *dtpb.Extension
 	var heldEl fhir.Element
+	if h := bc.Steps[0].PreHeld; h.K == "ext" {
+		// a behaviour that starts with an extension already held (single-step replays)
+		heldExt, heldEl = makeExt(ent{URL: h.URL, Val: h.Val})
+		known[heldEl] = h.Val
+	}
 	heldOf := func() heldRec {
 		if heldExt == nil {
 			return heldRec{K: "none"}
@@ -347,7 +356,14 @@ func replayOn(bc behCase, ownerKind string) any {
 		o.Frozen = restHash(owner) == before
 		steps = append(steps, o)
 	}
-	return map[string]any{"id": bc.ID + "/" + ownerKind, "kind": "beh", "owner": ownerKind, "steps": steps}
+	ops := []string{}
+	for _, st := range steps {
+		ops = append(ops, st.Step.Op)
+	}
+	if bc.LastOnly {
+		steps = steps[len(steps)-1:]
+	}
+	return map[string]any{"id": bc.ID + "/" + ownerKind, "kind": "beh", "owner": ownerKind, "ops": ops, "steps": steps}
 }
 
 // unwrapRet describes what Unwrap returned: the token of the element by
